@@ -166,6 +166,11 @@ fn gen_case(seed: u64, tier: Tier) -> Case {
 		};
 		chunks.push(c);
 		total += c;
+		// now and then an empty slice: time does not pass, but what is due at once (a command with
+		// a zero-duration tween, a start time that has arrived) is due in both implementations
+		if !long && rng.chance(0.04) {
+			chunks.push(0);
+		}
 	}
 	let mut cmds = Vec::new();
 	if !long && rng.chance(0.6) {
@@ -397,7 +402,7 @@ impl Check for C09 {
 		CheckInfo {
 			id: "C09",
 			level: "exploration",
-			rule: "each case = audio content + length (0..3000; 3% long runs of 17 000..45 000 frames or a short loop played that long, so that the streaming ring buffer's 16384 slots wrap; a third of those end exactly where the push that fills the ring is the last frame, half of the rest are stopped with a fade longer than the ring holds), slice, start position, loop region, rate >= 0 (incl. 0), volume / panning, fade-in, a command history (pause / resume / resume_at / stop / set_volume / set_playback_rate / set_panning with tweens, no seeks), decoder packet-size cycle (0..1000, variable) and seek granularity (1..1000), device rate and chunk-size sequence; the static and the streaming implementation run side by side; non-trivial = non-silent output; distinct = hash of (state after each chunk, ended, loop, seek granularity class, rate class)",
+			rule: "each case = audio content + length (0..3000; 3% long runs of 17 000..45 000 frames or a short loop played that long, so that the streaming ring buffer's 16384 slots wrap; a third of those end exactly where the push that fills the ring is the last frame, half of the rest are stopped with a fade longer than the ring holds), slice, start position, loop region, rate >= 0 (incl. 0), volume / panning, fade-in, a command history (pause / resume / resume_at / stop / set_volume / set_playback_rate / set_panning with tweens, no seeks), decoder packet-size cycle (0..1000, variable) and seek granularity (1..1000), device rate and chunk-size sequence (now and then an empty slice); the static and the streaming implementation run side by side; non-trivial = non-silent output; distinct = hash of (state after each chunk, ended, loop, seek granularity class, rate class)",
 			assumptions: vec![
 				"both sounds are driven directly through the public Sound trait (on_start_processing + process) with an empty MockInfo".into(),
 				"'decoder keeps ahead' = the gated decoder task is run until it sleeps on a full ring or ends before every callback; chunks are at most 200 frames at rate <= 3, far below the 16384-frame ring".into(),
